@@ -50,6 +50,8 @@ FILLERS = {
     "Pn AS LONG": "Pn AS LONG", "Pu AS Undef": "Pu AS Undef", "Pq%()": "Pq%()",
     "#99999999999": "#99999999999", "#256": "#256", "#0": "#0", "#-1": "#-1", "#1.5": "#1.5", "#N%": "#N%", "#": "#",
     "(Arr())": "(Arr())", "ArrS$()": "ArrS$()", "RecArr()": "RecArr()", "Arr(1)()": "Arr(1)()",
+    "VARPTR": "VARPTR", "VARSEG": "VARSEG", "LEN": "LEN", "MID$": "MID$", "CHR$": "CHR$", "EOF": "EOF", "PEEK": "PEEK", "INSTR": "INSTR",
+    "UBOUND": "UBOUND", "CVD": "CVD", "MKD$": "MKD$", "VAL": "VAL", "STR$": "STR$", "VARPTR()": "VARPTR()", "LEN()": "LEN()",
     "Qf": "Qf", "Qf%": "Qf%", "Qf!": "Qf!", "Qg": "Qg", "Qg$": "Qg$",
     "QQ": "QQ", "A.B$": "A.B$", "Rec.X%": "Rec.X%", "Undef.X$": "Undef.X$", "Rec.S$": "Rec.S$", "&O8": "&O8", "&o17": "&o17", "2#": "2#",
     "": "", " ": " ", ":": ":", "'": "'", ",": ",", ";": ";", "=": "=", "1 TO 2": "1 TO 2", "-": "-", "- -1": "- -1", "(N%": "(N%", "N%)": "N%)",
